@@ -30,6 +30,7 @@ func init() {
 func runC02(x *X) {
 	runC02Reentrant(x)
 	runC02SecondTable(x)
+	runC02CellByCell(x)
 	type fam struct {
 		name   string
 		depth  int
